@@ -2,7 +2,7 @@
 from harness.impl import plots as P
 
 COLOR_LISTS = [["red", "blue"], ["green", "orange", "purple"], ["k", "c", "m", "y"], ["navy", "teal", "crimson"]]
-CMAPS = [None, "viridis", "plasma", "Blues", "xyz"]
+CMAPS = [None, "viridis", "plasma", "Blues", "xyz", "viridis_r", "plasma_r"]   # names that are reversed maps too
 MARKER_LISTS = [["o", "s"], ["^", "v", "D"], ["x"]]
 
 
